@@ -93,7 +93,13 @@ def propertyHolds (registered : List Nat) (uses : List Use) (es : List Event) : 
   let gotCalls := es.filterMap fun e => match e with | .scriptCall n => some n | _ => none
   let wantNames := uses.flatMap fun u => match u with | .classAttr items => classNames items | _ => []
   let gotNames := es.filterMap fun e => match e with | .className n => some n | _ => none
-  if !multiScript.isEmpty then some s!"script definition emitted more than once: {multiScript}"
+  -- the same definition twice inside ONE <script> / <style> element
+  let dupWithin := es.any fun e => match e with
+    | .scriptDef ns => ns.eraseDups.length != ns.length
+    | .styleDef is => is.eraseDups.length != is.length
+    | _ => false
+  if dupWithin then some "a script / CSS definition is emitted twice within one element"
+  else if !multiScript.isEmpty then some s!"script definition emitted more than once: {multiScript}"
   else if !multiClass.isEmpty then some s!"CSS rule emitted more than once: {multiClass}"
   else if !multiOnce.isEmpty then some s!"once content emitted more than once: {multiOnce}"
   else if !inlinedRegistered.isEmpty then some s!"class registered with the middleware was inlined: {inlinedRegistered}"
@@ -112,6 +118,16 @@ def handle : List String → Verdict
         predfail := propertyHolds reg uses es,
         nontrivial := uses.length > 2, tags := [if reg.isEmpty then "plain-context" else "middleware"], sig := "hist" }
     | _, _, _ => .badOp
+  | ["scriptname", _aH, _bH, naH, nbH, sameFnS, sameBodyS] =>
+    match hexField naH, hexField nbH with
+    | some na, some nb =>
+      let sameFn := sameFnS == "1"
+      -- one name, one function: otherwise the second template's definition is never emitted and its calls run the first's
+      { predfail := if na == nb && !sameFn then some "two script templates that are different functions get the same function name"
+                    else none,
+        nontrivial := na == nb, tags := ["scriptname"],
+        sig := "scriptname" ++ (if na == nb && !sameFn && sameBodyS == "1" then ";same-body-different-parameters" else "") }
+    | _, _ => .badOp
   | ["stylesheet", regS, servedS] =>
     match natsDot regS, natsDot servedS with
     | some reg, some served =>
